@@ -1,9 +1,18 @@
 #!/usr/bin/env python3
 """C20 - malformed or hostile files produce an error, never a crash or a hang.  PARTIAL by nature.
 
-(1) Lean: decision + resource model of Nodegraph::from_reader; `alloc_bounded` for the allocation
-    discipline the translator reads from the current source; nodegraph files are also run through
-    the model and the outcome class (ok + table sizes / err) is compared with the real reader.
+(1) Lean: decision + resource models of the hand-written readers
+      Nodegraph::from_reader                         (Model/NgReader.lean)
+      CollectionManifest.load_from_csv               (Model/CsvReaders.lean)
+      SignaturePicklist.from_picklist_args / .load   (Model/CsvReaders.lean)
+      LCA_Database.load, SBT.load/_load_v1.._v6      (Model/JsonReaders.lean)
+      _load_database (the loader chain)              (Model/LoaderChain.lean)
+    over what the trusted decoders (UTF-8, csv, json, file system) report; theorems in Props/C20.lean
+    (escaping exception classes, accepted => structure, work <= c*|input| or the counterexample).
+    Every mutated file of a modelled kind is run through the model (driver c20r) and compared with
+    what the real reader did when called directly in the worker: outcome class, the facts it
+    extracted, and (second tie) the number of source lines the reader executed against the model's
+    work count.
 (2) Crash-isolated differential run (testing, labelled so): mutated versions of every file kind are
     loaded by worker processes under an address-space limit and a per-file time limit; any signal,
     timeout or damaged process state is a violation with the bytes as replay."""
@@ -19,6 +28,7 @@ import subprocess
 import sys
 import time
 import zipfile
+import re
 
 sys.path.insert(0, os.path.dirname(os.path.abspath(__file__)))
 sys.path.insert(0, os.path.dirname(os.path.dirname(os.path.abspath(__file__))))
@@ -28,16 +38,25 @@ TB = [
     "Lean 4.33 kernel; axioms allowed: propext, Classical.choice, Quot.sound",
     "translator: allocation discipline of Nodegraph::from_reader (pre-allocation from the size field vs bounded read) re-read from the source each run",
     "hand-written model of the nodegraph byte reader, compared with the real reader on every mutated nodegraph file (outcome class and table sizes)",
+    "translator c20readers: 59 source definitions pinned to the text the reader models were written against (harness/translators/c20_pins.json) + literal slots (header prefix, required keys, coltype tables, versions, storage back ends, loader table, swallowed classes)",
+    "hand-written models of the manifest / picklist / LCA / SBT readers and of the loader chain over the answers of trusted decoders (UTF-8 text layer, csv module, json module, os.path / file system, ast.literal_eval as an oracle with a stated exception range); compared with the real readers on every mutated file of those kinds",
+    "sys.settrace line counts inside the readers' own frames as the measured counterpart of the models' work count",
     "NOT modelled, only observed by crash-isolated workers: memory safety of native code, serde_json / zip / gzip / sqlite / csv decoders, the allocator, CPython",
 ]
-AS = ["PARTIAL by nature: only the hand-written size-taking reader is inside a theorem; everything else is differential testing in isolated workers",
+AS = ["PARTIAL by nature: the hand-written readers' decisions are inside theorems (over decoded input); memory safety, the decoders and everything native is differential testing in isolated workers",
       "worker limits: RLIMIT_AS 6 GB, 30 s per file"]
 RULE = ("for each of 11 file kinds (sig JSON, sig.gz, zip, sqldb, manifest CSV, picklist CSV, SBT zip, SBT json, LCA json, nodegraph, taxonomy CSV) "
         "a valid seed file is produced with the current code and mutated: bit flips, truncation, insertion, 8-byte size-field inflation at every offset "
         "(binary kinds), JSON tree edits (field deletion/duplication/type change/deep nesting/huge integers), CSV column edits, member edits inside zip and "
-        "gzip containers; each mutated file is loaded through the loader a user reaches (generic loader + iteration + a search, manifest, picklist, taxonomy "
-        "loaders) in a worker; after a failed load a sentinel sketch must still have the right md5; non-trivial = the file differs from the seed and the "
-        "loader got past opening it (outcome recorded); distinct = distinct mutated byte strings")
+        "gzip containers; for the four kinds with a reader model (manifest, picklist, SBT json, LCA json) also targeted damages aimed at single decisions "
+        "(version strings around the float comparison, every required key deleted / retyped, per-cell conversions incl. int()/literal_eval edge cases, "
+        "short/long/blank rows, duplicated header columns, picklist argument strings x coltypes, index versions 1-6 and documents shaped for them, "
+        "storage back ends, factory args, position keys in every int() spelling and as size fields, d, manifest pointers, undecodable bytes before and after "
+        "the decoder's first chunk) and two list-of-paths files that name themselves / each other; each file is loaded through the loader a user reaches "
+        "(generic loader + iteration + a search, manifest, picklist, taxonomy loaders) in a worker; after a failed load a sentinel sketch must still have "
+        "the right md5; for modelled kinds the real reader is also called directly (facts + executed-line count) and the Lean model is run on the decoders' "
+        "answers for the same file; every load_file_as_index call is recorded loader by loader and replayed through the chain model; "
+        "non-trivial = the file differs from the seed and the loader got past opening it (outcome recorded); distinct = distinct mutated byte strings")
 
 PER_FILE_TIMEOUT = 30
 
@@ -287,8 +306,8 @@ def mutations(kind, seed, rng, n):
 # ---------------------------------------------------------------------------------- isolated workers
 
 def run_worker(jobs, pkg):
-    """jobs: list of (kind, path).  Returns list of outcome strings, one per job
-    ('ok..', 'exc X', 'signal N', 'timeout', with optional sentinel suffix)."""
+    """jobs: list of (kind, path, extra).  Returns list of result dicts, one per job:
+    {'o': 'ok..' | 'exc X' | 'signal N' | 'timeout' (+ sentinel suffix), 'facts': {...}, 'enc': {...}}"""
     env = dict(os.environ, PYTHONPATH=pkg, PYTHONHASHSEED="0")
     outcomes = []
     i = 0
@@ -297,9 +316,9 @@ def run_worker(jobs, pkg):
                              stdin=subprocess.PIPE, stdout=subprocess.PIPE, stderr=subprocess.DEVNULL, env=env, text=True)
         try:
             while i < len(jobs):
-                kind, path = jobs[i]
+                kind, path, extra = jobs[i]
                 try:
-                    p.stdin.write(f"{kind} {path}\n")
+                    p.stdin.write("\t".join([kind, path] + ([extra] if extra is not None else [])) + "\n")
                     p.stdin.flush()
                 except BrokenPipeError:
                     pass
@@ -307,16 +326,19 @@ def run_worker(jobs, pkg):
                 if not r:
                     p.kill()
                     p.wait()
-                    outcomes.append("timeout")
+                    outcomes.append({"o": "timeout"})
                     i += 1
                     break
                 line = p.stdout.readline()
                 if not line:
                     rc = p.wait()
-                    outcomes.append(f"signal {-rc}" if rc < 0 else f"died exit={rc}")
+                    outcomes.append({"o": f"signal {-rc}" if rc < 0 else f"died exit={rc}"})
                     i += 1
                     break
-                outcomes.append(line.rstrip("\n"))
+                try:
+                    outcomes.append(json.loads(line))
+                except ValueError:
+                    outcomes.append({"o": "died garbled-output"})
                 i += 1
         finally:
             if p.poll() is None:
@@ -335,11 +357,82 @@ def _worker_entry(args):
     return run_worker(*args)
 
 
+# ---------------------------------------------------------------------------------- model vs reader
+
+WORK_K, WORK_K0 = 25, 400         # lines executed by the reader  <=  WORK_K * model work + WORK_K0
+WORK_L, WORK_L0 = 3, 60           # model work                    <=  WORK_L * lines + WORK_L0
+
+READERS = {"mf": "manifest-reader", "pl": "picklist-reader", "lca": "lca-reader", "sbt": "sbt-reader", "chain": "loader-chain"}
+
+
+def split_w(m):
+    mm = re.search(r" w=(\d+)$", m)
+    return (m[:mm.start()], int(mm.group(1))) if mm else (m, None)
+
+
+def kv(s):
+    return dict(x.split("=", 1) for x in s.split(" ")[1:] if "=" in x)
+
+
+def compare(tag, model, fact):
+    """-> None when model and reader agree, 'skip' when the model declines, else a description"""
+    body, _ = split_w(model)
+    if body.startswith("skip"):
+        return "skip"
+    if body == "bad-op":
+        return "the encoder produced an op line the driver cannot parse"
+    if tag == "chain":
+        if body.startswith("order"):
+            return "loaders were not tried in the order of the sorted loader table: " + body
+        m = kv("x " + body)
+        outers = [o.split("<")[0] for _, o in fact["calls"]]
+        if m.get("outer", "").split(",") != outers:
+            return f"per-loader outcomes differ: model {m.get('outer')} reader {','.join(outers)}"
+        fin = m.get("final", "")
+        if fin == "more":
+            return "the reader's chain stopped although the model says every loader so far declines"
+        want = fact["final"]
+        got = fin.split("@")[0]
+        if want == "idx":
+            return None if got == "idx" else f"final: model {fin} reader {want}"
+        return None if got == want else f"final: model {fin} reader {want}"
+    if body.split(" ")[0] != fact.split(" ")[0]:
+        return f"model `{body[:70]}` reader `{fact[:70]}`"
+    if body.startswith("exc"):
+        return None if body == fact else f"model `{body}` reader `{fact}`"
+    if tag == "sbt":
+        a, b = kv(body), kv(fact)
+        for k in ("d", "n", "l", "m", "mf", "cc"):
+            if k == "cc" and b.get(k) == "-":
+                continue
+            if a.get(k) != b.get(k):
+                return f"{k}: model {a.get(k)} reader {b.get(k)}  (model `{body[:90]}` reader `{fact[:90]}`)"
+        return None
+    return None if body.rstrip() == fact.rstrip() else f"model `{body[:90]}` reader `{fact[:90]}`"
+
+
+def huge_key(doc):
+    """does an SBT index document carry a node / leaf position key beyond 10^4 ?"""
+    try:
+        for tab in ("nodes", "signatures", "leaves"):
+            for k in (doc.get(tab) or {}):
+                try:
+                    if int(k) > 10 ** 4:
+                        return True
+                except ValueError:
+                    pass
+    except (AttributeError, TypeError):
+        pass
+    return False
+
+
 def main():
     chk = common.Check("C20", TB, AS)
     pkg = chk.build()
     chk.translate()
     chk.prove()
+    sys.path.insert(0, os.path.join(common.VERIF, "harness", "c20"))
+    import targeted
     tmp = os.path.join(common.BUILD, "tmp", f"c20_{os.getpid()}")
     shutil.rmtree(tmp, ignore_errors=True)
     os.makedirs(tmp)
@@ -351,92 +444,170 @@ def main():
             chk.exit_tool("cannot create seed files: " + r.stderr[-1500:])
         seeds = [l.split(" ", 1) for l in r.stdout.strip().split("\n") if " " in l]
         jobs = []
-        meta = []
+        meta = []       # (kind, bytes, suffix, extra, targeted?)
         if chk.replay:
             p = chk.replay if os.path.isabs(chk.replay) else os.path.join(common.VERIF, chk.replay)
             d = json.load(open(p))["data"]
             kind, data = d["kind"], base64.b64decode(d["bytes_b64"])
+            rd = os.path.join(tmp, "replay")
+            os.makedirs(rd)
+            if kind == "sbtjson":
+                for k2, sp in seeds:
+                    if k2 == "sbtjson":
+                        sd = os.path.dirname(sp)
+                        for f in os.listdir(sd):
+                            if f.startswith(".sbt.") and os.path.isdir(os.path.join(sd, f)):
+                                shutil.copytree(os.path.join(sd, f), os.path.join(rd, f), dirs_exist_ok=True)
+                        path = os.path.join(rd, os.path.basename(sp))
+            else:
+                path = os.path.join(rd, "m" + d.get("suffix", ""))
             seeds = []
-            path = os.path.join(tmp, "replay" + d.get("suffix", ""))
             open(path, "wb").write(data)
-            jobs.append((kind, path))
-            meta.append((kind, data, d.get("suffix", "")))
+            jobs.append((kind, path, d.get("extra")))
+            meta.append((kind, data, d.get("suffix", ""), d.get("extra"), True))
         n = 60 if chk.tier == "quick" else 1500
         kinds = {}
-        for kind, path in seeds:
+        seed_bytes = {k: open(p, "rb").read() for k, p in seeds}
+        seed_paths = set(p for _, p in seeds)
+
+        def add_mutant(kind, seedpath, suffix, j, m, extra, tgt):
+            d = os.path.join(tmp, f"{kind}_{'t' if tgt else 'r'}{j}")
+            os.makedirs(d)
+            mp = os.path.join(d, "m" + suffix)
             if kind == "sbtjson":
-                # the json refers to a hidden directory of node files next to it: copy the whole directory per mutant
-                pass
-            seed = open(path, "rb").read()
+                # keep the node directory reachable
+                sd = os.path.dirname(seedpath)
+                for f in os.listdir(sd):
+                    if f.startswith(".sbt.") and os.path.isdir(os.path.join(sd, f)):
+                        shutil.copytree(os.path.join(sd, f), os.path.join(d, f), dirs_exist_ok=True)
+                mp = os.path.join(d, os.path.basename(seedpath))
+            with open(mp, "wb") as f:
+                f.write(m)
+            jobs.append((kind, mp, extra))
+            meta.append((kind, m, suffix, extra, tgt))
+
+        for kind, path in seeds:
+            seed = seed_bytes[kind]
             suffix = path[path.index(".", len(os.path.dirname(path))):]
-            jobs.append((kind, path))          # the unmodified seed must load
-            meta.append((kind, seed, suffix))
+            jobs.append((kind, path, None))          # the unmodified seed must load
+            meta.append((kind, seed, suffix, None, False))
             muts = mutations(kind, seed, chk.rng, n)
-            kinds[kind] = len(muts)
+            tg = []
+            if kind == "manifest":
+                tg = targeted.manifest(seed, chk.rng)
+            elif kind == "picklist":
+                tg = targeted.picklist(seed, seed_bytes["manifest"], chk.rng)
+            elif kind == "sbtjson":
+                tg = targeted.sbtjson(seed, chk.rng, thorough=chk.tier == "thorough")
+            elif kind == "lca":
+                tg = targeted.lca(seed, chk.rng)
+            if chk.tier == "quick" and len(tg) > 450:
+                keep = set(chk.rng.sample(range(len(tg)), 450))
+                tg = [t for i, t in enumerate(tg) if i in keep]
+            kinds[kind] = len(muts) + len(tg)
             for j, m in enumerate(muts):
-                d = os.path.join(tmp, f"{kind}_{j}")
-                os.makedirs(d)
-                mp = os.path.join(d, "m" + suffix)
-                if kind == "sbtjson":
-                    # keep the node directory reachable
-                    sd = os.path.dirname(path)
-                    for f in os.listdir(sd):
-                        if f.startswith(".sbt.") and os.path.isdir(os.path.join(sd, f)):
-                            name = ".sbt." + "m" + suffix[:-len(".sbt.json")] if False else f
-                            shutil.copytree(os.path.join(sd, f), os.path.join(d, f), dirs_exist_ok=True)
-                    mp = os.path.join(d, os.path.basename(path))
-                with open(mp, "wb") as f:
-                    f.write(m)
-                jobs.append((kind, mp))
-                meta.append((kind, m, suffix))
+                add_mutant(kind, path, suffix, j, m, None, False)
+            seen = set()
+            for j, (m, extra) in enumerate(tg):
+                if (m, extra) in seen:
+                    continue
+                seen.add((m, extra))
+                add_mutant("plarg" if (kind == "picklist" and extra) else kind, path, suffix, j, m, extra, True)
+        if seeds:
+            # a list-of-paths file that names itself, and two that name each other (the chain recurses through them)
+            d = os.path.join(tmp, "pathlist")
+            os.makedirs(d)
+            a, b, c = (os.path.join(d, x) for x in ("self.txt", "a.txt", "b.txt"))
+            for pth, content in ((a, a + "\n"), (b, b + "\n" + c + "\n"), (c, b + "\n" + c + "\n")):
+                open(pth, "w").write(content)
+            for pth in (a, b):
+                jobs.append(("pathlist", pth, None))
+                meta.append(("pathlist", open(pth, "rb").read(), ".txt", None, True))
+            kinds["pathlist"] = 2
         # distribute over workers
         nw = 16
         chunks = [list(range(i, len(jobs), nw)) for i in range(nw)]
         chunks = [c for c in chunks if c]
         res = common.par_map(_worker_entry, [([jobs[i] for i in c], pkg) for c in chunks], procs=len(chunks))
-        outcome = [None] * len(jobs)
+        result = [None] * len(jobs)
         for c, r in zip(chunks, res):
             for i, o in zip(c, r):
-                outcome[i] = o
+                result[i] = o
+        outcome = [(r or {}).get("o") for r in result]
         # nodegraph files also go through the Lean model
-        ng_idx = [i for i, (k, _) in enumerate(jobs) if k == "nodegraph"]
+        ng_idx = [i for i, j in enumerate(jobs) if j[0] == "nodegraph"]
         text = "# case\n" + "".join("ng " + meta[i][1].hex() + "\n" for i in ng_idx)
         model = common.run_model("ng", text)[1:]
+        # the reader models
+        ops = []        # (job index, tag)
+        for i, r in enumerate(result):
+            for tag, line in ((r or {}).get("enc") or {}).items():
+                if tag in READERS and (tag in ((r or {}).get("facts") or {})):
+                    ops.append((i, tag, line))
+        rmodel = common.run_model("c20r", "# case\n" + "".join(l + "\n" for _, _, l in ops))[1:] if ops else []
+        if len(rmodel) != len(ops):
+            chk.exit_tool(f"reader-model driver answered {len(rmodel)} lines for {len(ops)} ops")
         stats = {}
         distinct = 0
         nv = 0
-        for i, ((kind, path), (k2, data, suffix), o) in enumerate(zip(jobs, meta, outcome)):
+        for i, (job, (k2, data, suffix, extra, tgt), o) in enumerate(zip(jobs, meta, outcome)):
+            kind, path = job[0], job[1]
             chk.cov["evaluations"] += 1
             cls = (o or "none").split(" ")[0]
             stats.setdefault(kind, {}).setdefault(cls if cls != "exc" else o, 0)
             stats[kind][cls if cls != "exc" else o] += 1
             if o is not None and not o.startswith("none"):
                 distinct += 1
-            is_seed = any(path == sp for _, sp in seeds)
-            rp = {"kind": kind, "suffix": suffix, "bytes_b64": base64.b64encode(data).decode(), "outcome": o,
+            is_seed = path in seed_paths
+            rp = {"kind": kind, "suffix": suffix, "extra": extra, "bytes_b64": base64.b64encode(data).decode(), "outcome": o,
                   "how": "write the bytes to a file with this suffix and load it as harness/c20/worker.py does"}
+            facts = (result[i] or {}).get("facts") or {}
+            direct_excs = [v for k, v in facts.items() if isinstance(v, str) and v.startswith("exc ")]
             if o is None or o.startswith(("signal", "timeout", "died")):
                 nv += 1
                 detail = ""
-                if kind == "sbtjson" and o == "timeout":
+                sig = None
+                if kind == "sbtjson":
                     try:
-                        dd = json.loads(data).get("d")
-                        if isinstance(dd, int) and dd > 10 ** 6:
+                        doc = json.loads(data)
+                        dd = doc.get("d")
+                        if isinstance(dd, int) and dd > 10 ** 6 and o == "timeout":
                             detail = ":huge-d"
+                        if huge_key(doc):
+                            sig = "C20:sbtjson:huge-node-key"
                     except (ValueError, AttributeError):
                         pass
-                chk.add_violation("crash", f"C20:{kind}:{(o or 'none').split()[0]}{detail}",
+                chk.add_violation("crash", sig or f"C20:{kind}:{(o or 'none').split()[0]}{detail}",
                                   f"loading a damaged {kind} file ({len(data)} bytes) ended the worker: {o}", rp)
             elif "SENTINEL" in o:
                 nv += 1
                 chk.add_violation("crash", f"C20:{kind}:sentinel", f"after a failed load of a damaged {kind} file the process is damaged: {o}", rp)
-            elif o.startswith("exc SystemExit"):
+            elif o.startswith("exc SystemExit") or "exc SystemExit" in direct_excs:
                 # sys.exit() from library code on bad input is not an 'ordinary catchable error'
                 chk.add_violation("oracle", f"C20:{kind}:SystemExit", f"loading a damaged {kind} file called sys.exit() instead of raising", rp)
-            elif o.startswith("exc MemoryError"):
-                chk.add_violation("oracle", f"C20:{kind}:{o.split()[1]}", f"loading a damaged {kind} file ({len(data)} bytes) exhausted a resource: {o}", rp)
+            elif o.startswith("exc MemoryError") or "exc MemoryError" in direct_excs:
+                detail = ""
+                if kind == "manifest" and re.search(rb"[-+~(\[{]{1000,}", data):
+                    detail = ":literal_eval-nesting"
+                sig = None
+                if kind == "sbtjson":
+                    try:
+                        if huge_key(json.loads(data)):
+                            sig = "C20:sbtjson:huge-node-key"
+                    except ValueError:
+                        pass
+                chk.add_violation("oracle", sig or f"C20:{kind}:MemoryError{detail}",
+                                  f"loading a damaged {kind} file ({len(data)} bytes) exhausted a resource: MemoryError", rp)
             elif is_seed and not o.startswith("ok"):
                 chk.add_violation("oracle", f"C20:{kind}:seed-rejected", f"the unmodified valid {kind} seed file was rejected: {o}", rp)
+            # amplification: the work a reader does must be bounded by the size of what it reads
+            sb = facts.get("sbt")
+            if isinstance(sb, str) and sb.startswith("ok"):
+                m_ = kv(sb).get("m", "0")
+                if m_.isdigit() and int(m_) > 20 * max(1, len(data)):
+                    chk.add_violation("oracle", "C20:sbtjson:huge-node-key",
+                                      f"a {len(data)}-byte SBT index JSON makes SBT.load build a set of {m_} missing positions "
+                                      f"(it enumerates range(largest position key in the file))", rp)
         for i, m in zip(ng_idx, model):
             o = outcome[i] or ""
             chk.cov["traces_validated_against_impl"] += 1
@@ -448,13 +619,62 @@ def main():
                                   f"reader model says `{m[:80]}` but the implementation says `{o[:80]}` for a {len(meta[i][1])}-byte nodegraph file",
                                   {"kind": "nodegraph", "suffix": ".ng", "bytes_b64": base64.b64encode(meta[i][1]).decode(), "model": m, "impl": o},
                                   concrete=False)
+        corr = {t: {"compared": 0, "agreed": 0, "model_declined": 0, "ok": 0, "exc": 0, "work_checked": 0, "classes": {}} for t in READERS}
+        decl = {}
+        for (i, tag, line), m in zip(ops, rmodel):
+            facts = result[i]["facts"]
+            fact = facts[tag]
+            c = corr[tag]
+            c["compared"] += 1
+            chk.cov["traces_validated_against_impl"] += 1
+            kind, data, suffix, extra, _ = meta[i]
+            rp = {"kind": kind, "suffix": suffix, "extra": extra, "bytes_b64": base64.b64encode(data).decode(), "model": m, "reader": fact,
+                  "op": line if len(line) < 4000 else line[:4000] + "…",
+                  "how": "load the bytes as harness/c20/worker.py does (direct call of the modelled reader); `op` is the model's input"}
+            why = compare(tag, m, fact)
+            if why == "skip":
+                c["model_declined"] += 1
+                w = split_w(m)[0][5:]
+                decl[w] = decl.get(w, 0) + 1
+                continue
+            if why is not None:
+                if os.environ.get("C20_DEBUG"):
+                    print(f"[c20-debug] {tag} {kind} extra={extra!r}: {why}\n    data={data[:300]!r}", file=sys.stderr)
+                chk.add_violation("correspondence", f"C20:corr:{READERS[tag]}",
+                                  f"{READERS[tag]}: model and code disagree on a {len(data)}-byte {kind} file: {why}", rp, concrete=False)
+                continue
+            c["agreed"] += 1
+            if tag != "chain":
+                f0 = fact.split(" ")
+                if f0[0] == "ok":
+                    c["ok"] += 1
+                else:
+                    c["exc"] += 1
+                    c["classes"][f0[1]] = c["classes"].get(f0[1], 0) + 1
+                w = split_w(m)[1]
+                lines = facts.get(tag + "_lines")
+                if w is not None and lines is not None:
+                    c["work_checked"] += 1
+                    if lines > WORK_K * w + WORK_K0 or w > WORK_L * lines + WORK_L0:
+                        chk.add_violation("correspondence", f"C20:work:{READERS[tag]}",
+                                          f"{READERS[tag]}: the reader executed {lines} source lines where the model counts {w} loop iterations "
+                                          f"(bounds: lines <= {WORK_K}*w+{WORK_K0}, w <= {WORK_L}*lines+{WORK_L0})", rp, concrete=False)
+            else:
+                fin = fact["final"]
+                c["ok" if fin == "idx" else "exc"] += 1
+                if fin != "idx":
+                    c["classes"][fin[4:]] = c["classes"].get(fin[4:], 0) + 1
         chk.cov["distinct_nontrivial"] = distinct
         chk.cov["rule"] = RULE
         chk.cov["outcomes_by_kind"] = stats
         chk.cov["mutants_by_kind"] = kinds
+        chk.cov["reader_models"] = corr
+        chk.cov["reader_models_declined_because"] = decl
         chk.cov["samples"] = [{"kind": jobs[i][0], "bytes": len(meta[i][1]), "outcome": outcome[i]} for i in range(0, len(jobs), max(1, len(jobs) // 8))][:8]
         chk.cov["explanation"] = ("theorem part: obligations/discharged (Props/C20.lean); testing part: crash-isolated loads of mutated files "
-                                  "(evaluations) and model-vs-reader outcome comparison for nodegraph files (traces_validated_against_impl)")
+                                  "(evaluations); traces_validated_against_impl = model-vs-reader comparisons (nodegraph reader + reader_models.*.compared); "
+                                  "reader_models: per modelled reader, files compared / agreed / declined by the model (input outside the modelled fragment "
+                                  "of a trusted primitive) / work_checked (executed-lines vs model work within the stated linear bounds)")
     finally:
         shutil.rmtree(tmp, ignore_errors=True)
     chk.finish()
